@@ -14,6 +14,7 @@ import (
 	"git.metabarcoding.org/obitools/obitools4/obitools4/pkg/obiapat"
 	"git.metabarcoding.org/obitools/obitools4/obitools4/pkg/obiiter"
 	"git.metabarcoding.org/obitools/obitools4/obitools4/pkg/obiseq"
+	"git.metabarcoding.org/obitools/obitools4/obitools4/pkg/obitools/obipcr"
 )
 
 // C11 — in-silico PCR.
@@ -24,6 +25,9 @@ import (
 //	     one call of obiapat.PCRSlice on the batch of templates (ids t0, t1, ...); ext = -1: no extension
 //	frag <fwd> <rev> <e> <min> <max> <ext> <full> <minsize> <length> <overlap> <tpl>
 //	     the template goes through obiiter.IFragments(minsize, length, overlap, ...) and the fragments through PCRSlice
+//
+//	cli  <fwd> <rev> <e> <min> <max> <delta> <full> <tpl>
+//	     obipcr.CLIPCR with --fragmented on one template (options set through the verif hook)
 //
 // result: per template (separated by "|") the amplicons in the order PCRSlice returns them, each
 // d/from+1..to/amplicon/forward_match/forward_error/reverse_match/reverse_error ("," separated, "-" = none);
@@ -472,13 +476,15 @@ func (c11) Exec(c string) (string, []Fail) {
 		F, okF := c11Primer(o.fwd)
 		R, okR := c11Primer(o.rev)
 		plain := okF && okR
-		if plain && (len(F) >= c11MaxPatLen || len(R) >= c11MaxPatLen) {
+		if len(o.fwd) >= c11MaxPatLen || len(o.rev) >= c11MaxPatLen {
 			caseTrivial = true
 			return "unmodelled", nil // `1L << patlen` is undefined for 64 positions (C10 finding)
 		}
+		// EncodeSequence copies in[0..64) behind a circular sequence whatever its length: what lies behind a template
+		// shorter than 64 is not defined; it can only be seen by a primer longer than the template
 		short := false
 		for _, t := range tpls {
-			if o.circ && len(t) < c11MaxPatLen {
+			if o.circ && len(t) < c11MaxPatLen && max(len(o.fwd), len(o.rev)) > len(t) {
 				short = true
 			}
 		}
@@ -597,7 +603,7 @@ func (c11) Exec(c string) (string, []Fail) {
 					}
 				}
 				// rotation of a circular template
-				if o.circ && !short {
+				if o.circ && !short && c11MinLen(lows) > 0 {
 					stat("rotation-checked")
 					rots := make([][]byte, len(tpls))
 					for i, t := range lows {
@@ -702,11 +708,114 @@ func (c11) Exec(c string) (string, []Fail) {
 			fail("frag.missing", "amplicons of the whole template not found on any fragment: %s", c11Cut(m))
 		}
 		if len(s) > 0 {
-			fail("frag.spurious", "found on a fragment but not an amplicon of the whole template: %s", c11Cut(s))
+			sig := "frag.spurious"
+			if o.ext > -1 && !o.full {
+				sig = "frag.clipped-flank"
+			}
+			fail(sig, "found on a fragment but not an amplicon of the whole template: %s", c11Cut(s))
+		}
+		return res, fails
+
+	case f[0] == "cli" && len(f) == 9:
+		o, ok := c11ParseOpt([]string{f[1], f[2], f[3], f[3], f[4], f[5], f[6], f[7], "0"})
+		t, ok2 := unhx(f[8])
+		if !ok || !ok2 || o.max < 1 {
+			return "bad-op", nil
+		}
+		F, okF := c11Primer(o.fwd)
+		R, okR := c11Primer(o.rev)
+		if !okF || !okR || len(F) >= c11MaxPatLen || len(R) >= c11MaxPatLen {
+			return "bad-op", nil
+		}
+		type famp struct {
+			a    c11Amp
+			frag string
+		}
+		var got []famp
+		res := guardT(60*time.Second, func() string {
+			defer dbg()
+			obipcr.VerifSetOptions(o.fwd, o.rev, o.ef, o.min, o.max, o.ext, o.full, false, true)
+			src := obiiter.IBatchOver("x", obiseq.BioSequenceSlice{obiseq.NewBioSequence("x", t, "")}, 10)
+			it, err := obipcr.CLIPCR(src)
+			if err != nil {
+				return "error"
+			}
+			for it.Next() {
+				for _, s := range it.Get().Slice() {
+					id := s.Id()
+					p := strings.LastIndex(id, "_sub[")
+					coord := id[p+5 : len(id)-1]
+					from1, _ := strconv.Atoi(coord[:strings.Index(coord, "..")])
+					frag, start := "whole", 0
+					if q := strings.Index(id[:p], "_sub["); q >= 0 {
+						frag = id[q+5 : p-1]
+						start, _ = strconv.Atoi(frag[:strings.Index(frag, "..")])
+						start--
+					}
+					a := c11Amp{from: start + from1 - 1, amp: string(s.Sequence()), dir: '?'}
+					if d, _ := s.GetAttribute("direction"); d == "forward" {
+						a.dir = 'f'
+					} else if d == "reverse" {
+						a.dir = 'r'
+					}
+					v, _ := s.GetAttribute("forward_match")
+					a.fm, _ = v.(string)
+					v, _ = s.GetAttribute("reverse_match")
+					a.rm, _ = v.(string)
+					v, _ = s.GetAttribute("forward_error")
+					a.fe, _ = v.(int)
+					v, _ = s.GetAttribute("reverse_error")
+					a.re, _ = v.(int)
+					got = append(got, famp{a, frag})
+				}
+			}
+			xs := make([]string, len(got))
+			for i, g := range got {
+				xs[i] = fmt.Sprintf("%c/%s/%d/%s/%s/%d/%s/%d", g.a.dir, g.frag, g.a.from+1, hx([]byte(g.a.amp)), hx([]byte(g.a.fm)), g.a.fe, hx([]byte(g.a.rm)), g.a.re)
+			}
+			sort.Strings(xs)
+			if len(xs) == 0 {
+				return "-"
+			}
+			return strings.Join(xs, ",")
+		})
+		if res == "fatal" || res == "panic" || res == "hang" || res == "error" {
+			fail("cli."+res, "obipcr --fragmented ends in %s", res)
+			return res, fails
+		}
+		low := c11Lower(t)
+		exp, _ := c11Expected(o, F, R, low)
+		var gl []c11Amp
+		for _, g := range got {
+			gl = append(gl, g.a)
+		}
+		stat(fmt.Sprintf("cli-sites:%d", min(len(exp), 4)))
+		gk := c11Keys(gl, true, false)
+		if len(c11Uniq(gk)) < len(gk) {
+			stat("cli-duplicates")
+		}
+		m, s := c11Diff(c11Uniq(c11Keys(exp, true, false)), c11Uniq(gk))
+		if len(m) > 0 {
+			fail("cli.missing", "amplicons of the whole template found on no fragment: %s", c11Cut(m))
+		}
+		if len(s) > 0 {
+			sig := "cli.spurious"
+			if o.ext > -1 && !o.full {
+				sig = "cli.clipped-flank" // a fragment end acts as an end of the template
+			}
+			fail(sig, "reported on a fragment but not an amplicon of the whole template: %s", c11Cut(s))
 		}
 		return res, fails
 	}
 	return "bad-op", nil
+}
+
+func c11MinLen(l [][]byte) int {
+	m := 1 << 30
+	for _, t := range l {
+		m = min(m, len(t))
+	}
+	return m
 }
 
 func c11DirOf(keys []string) string {
@@ -894,16 +1003,21 @@ func (c11) Gen(rng *rand.Rand, tier string, emit func(string)) {
 		}
 		emit(c11Line(c.o, tp))
 	}
-	// fragments
-	emit(c11FragLine(rng, "ACGTA", "GGATC", 0, 0, 10, -1, false, 40, 30, 19, 0))
-	for k := 0; k < 12; k++ {
-		emit(c11FragLine(rng, "ACGTAAC", "GGATC", 0, 0, 10, -1, false, 100, 50, 10+7+2, k))
+	// fragments: generic IFragments parameters with an overlap that covers every product …
+	for k := 0; k < 6; k++ {
+		emit(c11FragLine(rng, "ACGTAAC", "GGATC", 0, 0, 10, -1, false, 100, 50, 10+7+5, k))
 	}
+	// … and obipcr --fragmented itself: products of maximal length starting just before a fragment ends
+	// (the overlap used to be max length + longer primer + half of the shorter one: they were lost)
+	emit(c11CliLine(rng, "ACGTAAC", "GGATC", 0, 0, 4, -1, false, true))
+	emit(c11CliLine(rng, "ACGTAAC", "GGATCTT", 0, 0, 3, -1, false, true))
+	emit(c11CliLine(rng, "ACGTAAC", "GGATC", 0, 0, 3, 4, true, true))
+	emit(c11CliLine(rng, "ACGTAAC", "GGATC", 0, 0, 3, 4, false, true))
 
 	// ---- random ----------------------------------------------------------------------------------
 	n := 2500
 	if tier == "thorough" {
-		n = 20000
+		n = 6000
 	}
 	for it := 0; it < n; it++ {
 		var o c11Opt
@@ -1034,17 +1148,61 @@ func (c11) Gen(rng *rand.Rand, tier string, emit func(string)) {
 	}
 	nf := 6
 	if tier == "thorough" {
-		nf = 60
+		nf = 24
 	}
 	for k := 0; k < nf; k++ {
 		fl, rl := 4+rng.Intn(6), 4+rng.Intn(6)
 		fw, rv := c11RandPrimer(rng, fl, 0), c11RandPrimer(rng, rl, 0)
 		mx := 5 + rng.Intn(20)
 		length := 3*(mx+fl+rl) + rng.Intn(40)
-		// the overlap obipcr.CLIPCR asks for: max length + longer primer + half of the shorter one
-		overlap := mx + max(fl, rl) + min(fl, rl)/2
-		emit(c11FragLine(rng, fw, rv, rng.Intn(2), 0, mx, []int{-1, -1, 0, 3}[rng.Intn(4)], false, 2*length, length, overlap, -1))
+		overlap := mx + fl + rl
+		ext := []int{-1, -1, 0, 3}[rng.Intn(4)]
+		if ext > 0 {
+			overlap += 2 * ext
+		}
+		emit(c11FragLine(rng, fw, rv, rng.Intn(2), 0, mx, ext, rng.Intn(2) == 0, 2*length, length, overlap, -1))
 	}
+	nc := 3
+	if tier == "thorough" {
+		nc = 6
+	}
+	for k := 0; k < nc; k++ {
+		fl, rl := 6+rng.Intn(4), 6+rng.Intn(4)
+		emit(c11CliLine(rng, c11RandPrimer(rng, fl, 0), c11RandPrimer(rng, rl, 0), rng.Intn(2), 0, 2+rng.Intn(3),
+			[]int{-1, -1, 0, 2}[rng.Intn(4)], rng.Intn(2) == 0, rng.Intn(2) == 0))
+	}
+}
+
+// a template longer than 1000 x max length; products planted around the ends of the fragments obipcr cuts
+func c11CliLine(rng *rand.Rand, fw, rv string, e, mn, mx, delta int, full bool, atEnds bool) string {
+	F, _ := c11Primer(fw)
+	R, _ := c11Primer(rv)
+	rcR := c11RcSets(R)
+	rcF := c11RcSets(F)
+	length := mx * 100
+	stepOld := length - (mx + max(len(fw), len(rv)) + min(len(fw), len(rv))/2)
+	L := mx*1000 + 1 + rng.Intn(3*length)
+	t := c11RandSeq(rng, L, "acgt")
+	for k := 1; k*stepOld+length < L && k < 12; k++ {
+		D, C := F, rcR
+		if k%4 == 3 {
+			D, C = R, rcF
+		}
+		gap := mx
+		i := rng.Intn(L - 100)
+		if atEnds {
+			i = k*stepOld - 1 - k%3
+		} else {
+			gap = 1 + rng.Intn(mx)
+		}
+		c11Plant(t, i, c11Instance(rng, D, 0), false)
+		c11Plant(t, i+len(D)+gap, c11Instance(rng, C, 0), false)
+	}
+	b := 0
+	if full {
+		b = 1
+	}
+	return fmt.Sprintf("cli %s %s %d %d %d %d %d %s", hx([]byte(fw)), hx([]byte(rv)), e, mn, mx, delta, b, hx(t))
 }
 
 // a long template with amplicons of maximal length planted at every offset class of the fragmentation
